@@ -55,6 +55,7 @@ func genC18(t *rapid.T) C18Case {
 				o.AliasSplit = rapid.Bool().Draw(t, "kaliassplit")
 			}
 		}
+		o.UseVar = rapid.Bool().Draw(t, "kusevar")
 		o.Required = rapid.IntRange(0, 2).Draw(t, "kreq") == 0
 		if o.Required && rapid.Bool().Draw(t, "kreqmsg") {
 			o.RequiredMsg = "need " + o.Name
@@ -84,7 +85,9 @@ func genC18(t *rapid.T) C18Case {
 		spec.Root.Opts = append(spec.Root.Opts, o)
 	}
 	if rapid.Bool().Draw(t, "synargs") {
-		spec.Root.SynArgs = [][2]string{{"<file>", "File to read"}, {"[<more>...]", ""}}
+		pool := [][2]string{{"<file>", "File to read"}, {"[<more>...]", ""}, {"<target>", "Where to put it"}, {"<n>", ""}}
+		n := rapid.IntRange(1, 3).Draw(t, "nsynargs")
+		spec.Root.SynArgs = rapid.Permutation(pool).Draw(t, "synargorder")[:n]
 	}
 	return C18Case{Spec: spec}
 }
@@ -328,6 +331,18 @@ func checkHelpText(spec *ProgSpec, l *Level, txt string) error {
 	for _, sa := range l.Spec.SynArgs {
 		if sa[0] != "" && !strings.Contains(syn, sa[0]) {
 			return failf("help of %s: synopsis does not mention declared argument %q", l.Path, sa[0])
+		}
+		if sa[1] != "" {
+			// a described argument is listed (once) with its description
+			n := 0
+			for _, e := range entries(ph.Sections[text.HelpArgumentsHeader]) {
+				if e.Head == strings.Fields(sa[0])[0] && strings.Contains(e.Text, sa[1]) {
+					n++
+				}
+			}
+			if n != 1 {
+				return failf("help of %s: declared argument %q with description %q is listed %d times under %s, want once:\n%s", l.Path, sa[0], sa[1], n, text.HelpArgumentsHeader, ph.Sections[text.HelpArgumentsHeader])
+			}
 		}
 	}
 	return nil
